@@ -2082,3 +2082,47 @@ pub fn optrun(r: &mut Rng, count: usize, out: &mut Out) {
     }
     std::panic::set_hook(prev);
 }
+
+// -------------------------------------------------------------------------------------- optcheck
+
+fn optcheck_case<C: CellType>(w: u32, code: &str, env: &EnvSpec, out: &mut Out) {
+    // only programs whose canonical run ends quickly: the test replays each round's input with fuel N
+    let inplace = InplaceInterpreter::<C>::create(code, 0).unwrap();
+    let mut genv = env.clone();
+    if genv.input.is_none() {
+        genv.input = Some(vec![]);
+    }
+    let g = run_exec::<C>(&inplace, &genv, &Mode::Limited(300));
+    if g.tag != "ok" {
+        out.stat("gate_skipped");
+        return;
+    }
+    for lvl in [2u32, 3] {
+        let t = ["optrun".to_string(), w.to_string(), lvl.to_string(), hex(code.as_bytes())];
+        let tt: Vec<&str> = t.iter().map(|s| s.as_str()).collect();
+        let (orders, imp) = exec_optrun(&tt);
+        if imp == "panic" || imp == "parse-error" {
+            continue;
+        }
+        out.stat(if orders == "-" { "without_orders" } else { "with_orders" });
+        out.case(
+            &format!("optcheck {w} {lvl} 20000 {} {} {orders}", genv.encode(), hex(code.as_bytes())),
+            "check-ok",
+        );
+    }
+}
+
+/// The hypothesis of the all-level optimizer theorem (`optimize_preserves_of_check'`), tested with the
+/// proved-sound boolean `optimizeCheck` on the real iteration orders: the analysis each later round
+/// consumes is sound for the program it rebuilds, on the run from the given environment.
+pub fn optcheck(r: &mut Rng, count: usize, out: &mut Out) {
+    for i in 0..count {
+        let code = match i % 3 {
+            0 => gen::structured(r),
+            _ => random_program(r, out),
+        };
+        let env = random_env(r);
+        let w = *r.pick(&WIDTHS);
+        with_width!(w, optcheck_case, w, &code, &env, out);
+    }
+}
